@@ -288,7 +288,7 @@ func runC16(r *vk.Run) {
 	// malformed values must be rejected, not replaced by a default
 	r.Phase("malformed", 1, func(c *vk.Case) {
 		now := time.Unix(1700000000, 0)
-		badTimes := []string{"abc", "12:30", "2024-13-01T00:00:00Z", "2024-01-01", "2024-01-01 00:00:00", "1e9", "1700000000.5.5", ".", "Inf", "0x10", "17000000000000000000000", "yesterday", "1700000000s", " 1700000000", "1700000000 "}
+		badTimes := []string{"now", "abc", "12:30", "2024-13-01T00:00:00Z", "2024-01-01", "2024-01-01 00:00:00", "1e9", "1700000000.5.5", ".", "Inf", "0x10", "17000000000000000000000", "yesterday", "1700000000s", " 1700000000", "1700000000 "}
 		for _, b := range badTimes {
 			if _, _, err := Cmd.TimeRange(now, sp(b), nil, nil); err == nil {
 				c.Fail("", fmt.Sprintf("malformed --start %q accepted", b), map[string]any{"flag": "start", "value": b})
@@ -328,6 +328,7 @@ func runC16(r *vk.Run) {
 				c.Fail("", fmt.Sprintf("--step %q accepted as %s (a step must be strictly positive)", b, d), map[string]any{"flag": "step", "value": b, "resolved": d.String()})
 			}
 		}
+		c.R.SetExtra("values_passed_through_real_flag_objects", CmdViaFlags.Load())
 		c.Nontrivial("malformed")
 		c.Sample("malformed", map[string]any{"times": badTimes, "durations": badDur, "steps": badStep})
 	})
@@ -371,9 +372,10 @@ func runC16(r *vk.Run) {
 			limit = rng.Range(1, 10)
 			args = append(args, "--limit", fmt.Sprint(limit))
 		}
-		badStep := ""
+		badStep, hasBadStep := "", false
 		if rng.Chance(1, 4) {
-			badStep = vk.Pick(rng, []string{"0", "-5", "inf", "NaN", "0s", "abc", "1h1h"})
+			hasBadStep = true
+			badStep = vk.Pick(rng, []string{"0", "-5", "inf", "NaN", "0s", "abc", "1h1h", "", ""})
 			args = append(args, "--step", badStep)
 		} else if rng.Bool() {
 			args = append(args, "--step", vk.Pick(rng, []string{"15", "1m", "0.5", "2h"}))
@@ -389,7 +391,7 @@ func runC16(r *vk.Run) {
 			c.Fail("", fmt.Sprintf("plugin did not finish within 60s for %v", args), det)
 			return
 		}
-		if badStep != "" {
+		if hasBadStep {
 			if pr.Exit == 0 {
 				c.Fail("", fmt.Sprintf("plugin accepted --step %q", badStep), det)
 			}
